@@ -121,6 +121,32 @@ func setResponseHeaderValue'''),
 func New() *Cache {
 	return shared
 }'''),
+ 'tags-inverted': ('tester/tester.go', 'ALL:if metadata.Skip || (len(metadata.Tags) > 0 && !metadata.MatchTags(t.config.Tags)) {', 'if metadata.Skip || metadata.MatchTags(t.config.Tags) {'),
+ # built-ins / statements with hidden effects (round 5: Gen/StoreEffects.v)
+ 'unset-charges-workspace': ('interpreter/statement.go', '''func (i *Interpreter) ProcessUnsetStatement(stmt *ast.UnsetStatement) error {
+	var err error''', '''func (i *Interpreter) ProcessUnsetStatement(stmt *ast.UnsetStatement) error {
+	var err error
+	i.ctx.RequestWorkspaceBytes += 8'''),
+ 'strrev-writes-header': ('interpreter/function/builtin/std_strrev.go', '''	s := value.Unwrap[*value.String](args[0]).Value
+''', '''	s := value.Unwrap[*value.String](args[0]).Value
+	if ctx.Request != nil {
+		ctx.Request.Header.Del("hb")
+	}
+'''),
+ 'header-unset-other-object': ('interpreter/function/builtin/header_unset.go', '''	case "req":
+		if ctx.Request != nil {
+			header_unset(ctx.Request.Header, name.Value)
+		}''', '''	case "req":
+		if ctx.Request != nil {
+			header_unset(ctx.Request.Header, name.Value)
+		}
+		if ctx.BackendRequest != nil {
+			header_unset(ctx.BackendRequest.Header, name.Value)
+		}'''),
+ 'error-writes-restarts': ('interpreter/statement.go', '''func (i *Interpreter) ProcessErrorStatement(stmt *ast.ErrorStatement) error {
+''', '''func (i *Interpreter) ProcessErrorStatement(stmt *ast.ErrorStatement) error {
+	i.ctx.Restarts++
+'''),
  # harmless refactorings
  'harmless-reorder': ('interpreter/subroutine.go', '''	regex := i.ctx.RegexMatchedValues
 	local := i.localVars
